@@ -454,6 +454,16 @@ for _n in SOURCE_OPS:
 RECEIVERS['generate'] = ['scalar']
 
 
+PREF_PROFILE = {
+    'orderBy': ['ints', 'strs', 'dicts', 'pairs', 'intsnull'], 'orderByDescending': ['ints', 'strs', 'dicts', 'pairs'],
+    'thenBy': ['dicts', 'pairs', 'ints'], 'thenByDescending': ['dicts', 'pairs', 'ints'],
+    'attr': ['dicts'], 'min': ['ints', 'strs', 'intsnull'], 'max': ['ints', 'strs', 'intsnull'], 'sum': ['ints', 'strs', 'nested'],
+    'toDict': ['ints', 'strs', 'pairs', 'dicts'], 'groupBy': ['ints', 'strs', 'pairs', 'dicts'],
+    'aggregate': ['ints', 'strs', 'nested'], 'accumulate': ['ints', 'strs', 'nested'],
+    'toSet': ['ints', 'strs', 'pairs', 'intsnull'], 'distinct': ['ints', 'strs', 'pairs', 'intsnull', 'dicts'],
+}
+
+
 def next_ops(kind):
     if kind in ('lazy', 'list', 'iter', 'seq'):
         return ITER_OPS + (SEQ_OPS if kind in ('list', 'seq') else [])
@@ -497,7 +507,12 @@ def pipeline(rng, fname, max_ops=4):
         prof = 'pairs'
     if fname == 'flatten' and rng.random() < 0.7:
         prof = 'nested'
+    if fname in PREF_PROFILE and rng.random() < 0.75:
+        prof = rng.choice(PREF_PROFILE[fname])
     kind, prof, value = data(rng, kind, prof)
+    if fname == 'single' and not pre and rng.random() < 0.5 and kind in ('list', 'iter'):
+        one = elems(rng, prof, 1)
+        value = tuple(one) if kind == 'list' else Iter(one)
     if fname == 'generate':
         value = rng.choice([0, 1, 2])
     c = Ctx(kind, prof, value)
